@@ -277,9 +277,7 @@ def _world(arg):
                          "detail": {"best_kappa": best_k, "costs": [[k, lib] for k, lib, _o, _c in costs],
                                     "returned": out["force"], "expected": want}})
         out["best_kappa"] = best_k
-    if _random.getstate() != rnd_state:
-        viol.append({"property": "C13", "clause": "global random state was consumed (hidden randomness)", "key": {"world": world},
-                     "detail": {}})
+    out["global_random_consumed"] = _random.getstate() != rnd_state   # observation; nondeterminism itself shows between worlds
     out["violations"] = viol
     return out
 
@@ -306,6 +304,8 @@ def run_case(case):
                              "key": {"entry": entry},
                              "detail": {"world": w, "A": results["A"].get(entry), w: results[w].get(entry)}})
                 break
+    if any(results[w].get("global_random_consumed") for w in results):
+        probes["global_random_state_consumed"] = 1
     hist.append({"worlds": 3, "best_kappa": results["A"].get("best_kappa"), "layout": digest(results["A"].get("layout")),
                  "force": digest(results["A"].get("force"))})
     mods = case["net"]["modules"]
